@@ -615,6 +615,9 @@ def generate(repo="/repo"):
                 raise Unsupported("%d definitions found" % len(defs))
             f = Fn(defs[0], known, mode)
             res = f.body()
+            # stable signature: scalar parameters in declaration order, then the other free variables by name (their order
+            # of appearance would change with a harmless re-ordering of an expression)
+            f.free = f.free[:f.nparams] + sorted(f.free[f.nparams:])
             if len(f.free) == f.nparams and len(res) == 1:
                 known[mname] = (cname, f.nparams, f.partial)          # a pure scalar helper other functions may call
             body, closing = "", ""
@@ -630,7 +633,7 @@ def generate(repo="/repo"):
             if f.partial:
                 rty = "option " + rty
             params = ("(fuel : nat) " if f.partial else "") + " ".join("(%s : T)" % v for v in f.free)
-            lines.append("(* %s::%s   free variables in order of appearance: %s%s *)" % (
+            lines.append("(* %s::%s   free variables (parameters, then the others by name): %s%s *)" % (
                 src, mname, ", ".join(f.free),
                 ("; 3x3 block row-major; %d statements not touching it skipped" % len(f.skipped)) if mode and mode.get("matrix") else ""))
             lines.append("Definition %s %s : %s :=\n%s.\n" % (cname, params, rty, body))
